@@ -17,11 +17,13 @@ func init() {
 		LevelText:   "Structural clauses decided for all paths: every stream / consumer-group operation that apply handles produces an activity event and every activity op constant is produced; the event id is the Raft index of the entry being handled and is what is recorded; the dispatcher advances its index only past non-command entries or after a successful publish, retries the same entry otherwise, and starts at last-published + 1; the event is published before its index is recorded through Raft; dispatch runs only with controller leadership. At-least-once across real fail-overs and ordering inside the activity partition are not decided. The activity manager's own publish does not pass through client authorisation.",
 		LevelNote:   "Trusted: go/ssa; Raft log store returns entries by index; the activity stream's own partition (C01/C03).",
 		DesignRef:   "DESIGN.md §4 C18",
-		Explanation: "R18.3 also: after a compacted entry the dispatcher resumes at the first retained index. R18.3 also: after a failed GetLog the dispatcher panics only for an error other than ErrLogNotFound or an index inside the log; an entry compacted away moves it to the first index (F72). R18.1 coverage tables, R18.2 event id identity, R18.3 order and retry in dispatch, R18.4 publish-then-record, R18.5 who may start dispatch / record the index, R18.6 the server's own publish is not put through client authorisation; R18.1 also requires each event to carry its payload and a handled op to be dropped only for a member-less group; R18.3 the exact wait test, the dispatcher start and a fresh stop channel per term. R15.8 (shared) activity.stream.* reach their Config fields. NOT decided: at-least-once across real fail-overs.",
+		Explanation: "R18.3 also (F105): BecomeFollower forgets the channel it closes and the dispatcher waits on its own term's channel. R18.3 also: after a compacted entry the dispatcher resumes at the first retained index. R18.3 also: after a failed GetLog the dispatcher panics only for an error other than ErrLogNotFound or an index inside the log; an entry compacted away moves it to the first index (F72). R18.1 coverage tables, R18.2 event id identity, R18.3 order and retry in dispatch, R18.4 publish-then-record, R18.5 who may start dispatch / record the index, R18.6 the server's own publish is not put through client authorisation; R18.1 also requires each event to carry its payload and a handled op to be dropped only for a member-less group; R18.3 the exact wait test, the dispatcher start and a fresh stop channel per term. R15.8 (shared) activity.stream.* reach their Config fields. NOT decided: at-least-once across real fail-overs.",
 	})
 }
 
 func runC18(c *eng.Ctx) {
+	c.Rule("R18.3", "K2")
+	ruleLeadershipChannelIsClosedOnce(c)
 	p := c.P
 	// ---- R18.1
 	c.Rule("R18.1", "K6")
@@ -248,7 +250,8 @@ func runC18(c *eng.Ctx) {
 			if ci, ok := in.(ssa.CallInstruction); ok {
 				for _, a := range eng.AllArgs(ci.Common()) {
 					if mc, ok := a.(*ssa.MakeClosure); ok {
-						if f, ok := mc.Fn.(*ssa.Function); ok && f.Name() == "dispatch$bound" {
+						if f, ok := mc.Fn.(*ssa.Function); ok && (f.Name() == "dispatch$bound" || len(eng.CallsIn(f, "server.activityManager.dispatch")) > 0) {
+							// a.dispatch as a method value, or (since F105) a literal that hands dispatch its term's channel
 							start = append(start, in)
 						}
 					}
@@ -279,8 +282,7 @@ func runC18(c *eng.Ctx) {
 				if !ok || !fieldIs(fa, chF) {
 					return false
 				}
-				_, isMake := st.Val.(*ssa.MakeChan)
-				return isMake
+				return freshChan(st.Val)
 			})
 			okCh = g
 		}
@@ -371,3 +373,28 @@ func opCaseEdges(fn *ssa.Function, opT *types.Named) []eng.Edge {
 }
 
 func handledOps(fn *ssa.Function, opT *types.Named) map[string]bool { return nil }
+
+// freshChan: the value is a channel made in this function — directly, or through the cell go/ssa makes of a local that a
+// closure captures (stored once, from make).
+func freshChan(v ssa.Value) bool {
+	v = eng.Strip(v)
+	if _, ok := v.(*ssa.MakeChan); ok {
+		return true
+	}
+	u, ok := v.(*ssa.UnOp)
+	if !ok || u.Op != token.MUL {
+		return false
+	}
+	al, ok := u.X.(*ssa.Alloc)
+	if !ok || al.Referrers() == nil {
+		return false
+	}
+	n, made := 0, false
+	for _, r := range *al.Referrers() {
+		if st, isSt := r.(*ssa.Store); isSt && st.Addr == ssa.Value(al) {
+			n++
+			_, made = eng.Strip(st.Val).(*ssa.MakeChan)
+		}
+	}
+	return n == 1 && made
+}
